@@ -783,6 +783,28 @@ class MatchFunction:
         self.fn = fn
 
 
+class _Receiver:
+    """Value constraint that matches one specific object, by identity.
+
+    Used for the receiver of a bound method: the object itself may not be
+    hashable, and an object that merely compares equal must not match.
+    """
+
+    def __init__(self, obj):
+        self.obj = obj
+
+    def __eq__(self, other):
+        if isinstance(other, _Receiver):
+            return other.obj is self.obj
+        return other is self.obj
+
+    def __hash__(self):
+        return id(self.obj)
+
+    def __repr__(self):
+        return repr(self.obj)
+
+
 def _dig(fn):
     while hasattr(fn, "__wrapped__") and not is_tooled(fn):
         fn = fn.__wrapped__
@@ -806,7 +828,7 @@ def _resolve(selector, env, cnt):
                 Element(
                     name=selfname,
                     capture=selfname,
-                    value=fn.__self__,
+                    value=_Receiver(fn.__self__),
                 )
             )
         else:
